@@ -573,13 +573,21 @@ def check_c08(ctx, R):
     for lp in seeds:
         root = lp.iter.value
         txt = norm(root)
-        if isinstance(root, ast.Name):
-            ra = reaching_assign(lp, root.id)
-            txt = norm(ra.value) if ra is not None else txt
-            if ra is not None and isinstance(ra.value, ast.Attribute) and isinstance(ra.value.value, ast.Name):
-                r2 = reaching_assign(ra, ra.value.value.id)
-                if r2 is not None:
-                    txt = txt.replace(ra.value.value.id, norm(r2.value), 1)
+        # the leading local is replaced by what it was assigned, a few levels deep: top_definition -> top_instance.reference ->
+        # netlist.top_instance.reference (whatever the locals are called)
+        at = lp
+        for _ in range(4):
+            e = root
+            while isinstance(e, ast.Attribute):
+                e = e.value
+            if not isinstance(e, ast.Name):
+                break
+            ra = reaching_assign(at, e.id)
+            if ra is None or ra.value is None:
+                break
+            txt = re.sub(r"^%s\b" % re.escape(e.id), norm(ra.value), txt)
+            root = ast.parse(txt, mode="eval").body
+            at = ra
         if txt.endswith("top_instance.reference") and not any(isinstance(x, (ast.If, ast.Break, ast.Continue)) for st in lp.body for x in ast.walk(st)):
             seed_ok = True
     if seed_ok:
